@@ -180,7 +180,8 @@ func main() {
 		os.Exit(2)
 	}
 	stream, dir := os.Args[1], os.Args[2]
-	seed := envInt("VERIF_SEED", 1)
+	// VERIF_SEED_ADD: a second, independent pass of a stream within one check (different generated cases)
+	seed := envInt("VERIF_SEED", 1) + envInt("VERIF_SEED_ADD", 0)*1000003
 	tier := os.Getenv("VERIF_TIER")
 	if tier == "" {
 		tier = "quick"
